@@ -307,6 +307,41 @@ func init() {
 					c.Report(&explore.Violation{Property: "C16", Sig: map[string]string{"check": "filterblock", "grid": tt[i].Grid.String(), "effect": v}, Detail: map[string]any{"task": tt[i], "violation": v}})
 				}
 			})
+			// (2b) a damaged filter block (every byte of it and of its trailer, three patterns) changes no
+			// answer, whether or not the reader verifies data-block checksums
+			tt = tt[:0]
+			for _, ns := range []bool{false, true} {
+				for _, ik := range []bool{false, true} {
+					for _, lg := range []int{2, 11} {
+						g := c13Grid{BlockSize: 16, Restart: 2, Bloom: true, BaseLg: lg, Mode: map[bool]string{false: "cachepool", true: "nocache"}[ik], IKey: ik, NoStrict: ns}
+						top := 1024
+						if quick {
+							top = 256
+						}
+						for from := 0; from < top; from += 32 {
+							tt = append(tt, c13Task{Grid: g, From: from, To: from + 32, Damage: true, FilterOnly: true})
+						}
+					}
+				}
+			}
+			raw = raw[:0]
+			for _, t := range tt {
+				raw = append(raw, explore.MustJSON(t))
+			}
+			pool.Map(raw, func(i int, b []byte, err error) {
+				var r c13Result
+				if err != nil {
+					r.Viol = explore.CrashViol(err)
+				} else {
+					json.Unmarshal(b, &r)
+				}
+				c.Add("filter_blocks_damaged", r.FilterDamaged)
+				c.Add("filter_damage_lookups", r.Lookups)
+				c.Add("transitions", r.Lookups)
+				for _, v := range r.Viol {
+					c.Report(&explore.Violation{Property: "C16", Sig: map[string]string{"check": "filterdamage", "grid": tt[i].Grid.String(), "effect": v}, Detail: map[string]any{"task": tt[i], "violation": v}})
+				}
+			})
 			// (3) DB programs under different filter settings
 			depth := 4
 			if !quick {
